@@ -264,3 +264,113 @@ func vh_C01_infix() {
 	vAssert(!panicked, "no-panic-escapes-infix-expand")
 	vReach("infix")
 }
+
+// vh_C01_decls: the declaration builders and what they declare, in the
+// standard setup: every form (head args...) with head a builder (struct,
+// func, method, interface, var, package, field, hash, defmap, ...), a
+// declared typed function, a declared struct constructor or a declared
+// variable, and arguments from a pool of labels (a: b: zz:), type names,
+// operands and small arrays of those.  No Go panic may escape.
+var vC01DeclHeads = []string{
+	"struct", "func", "method", "interface", "var", "package", "field", "hash", "defmap", "msgmap",
+	"togo", "&", "*", "derefSet", "colonAccess", ":", "=", "raw", "expectError", "range", "++", "req",
+}
+
+func vC01Label(env *Zlisp, name string) Sexp {
+	l := env.MakeSymbol(name)
+	l.colonTail = true
+	return l
+}
+
+func vC01DeclArg(env *Zlisp, k int) Sexp {
+	s := func(n string) Sexp { return env.MakeSymbol(n) }
+	switch k {
+	case 0:
+		return vC01Label(env, "a")
+	case 1:
+		return vC01Label(env, "b")
+	case 2:
+		return vC01Label(env, "zz")
+	case 3:
+		return &SexpInt{Val: vInt64("i")}
+	case 4:
+		return &SexpStr{S: "s"}
+	case 5:
+		return s("int64")
+	case 6:
+		return s("Dog")
+	case 7:
+		return s("d")
+	case 8:
+		return s("x") // unbound
+	case 9:
+		return vA(env)
+	case 10:
+		return vA(env, vC01Label(env, "a"), s("int64"))
+	case 11:
+		return vA(env, vC01Label(env, "a"))
+	case 12:
+		return vA(env, vL(s("field"), vC01Label(env, "Name"), s("string")))
+	case 13:
+		return vA(env, vL(s("p"), s("*"), s("Dog")))
+	case 14:
+		return vL(s("*"), s("int64"))
+	case 15:
+		return SexpNull
+	case 16:
+		return vL(s("func"), s("g"), vA(env, vC01Label(env, "a"), s("int64")), vA(env))
+	default:
+		return vL(s("quote"), s("Dog"))
+	}
+}
+
+const vC01NDeclArgs = 18
+
+func vh_C01_decls() {
+	vFormatOpaque(true)
+	vBudgetOK()
+	env := vStdEnvs(1)[0]
+	for _, f := range vT(env, `(struct Dog [(field Name: string e:0) (field Number: int64 e:1)]) (def d (Dog Name: "rover" Number: 5)) (func tf [a:int64 b:string] [n:int64] (return (+ a 1))) (var v int64)`) {
+		if _, err, p := vEval(env, f); err != nil || p {
+			vAssert(false, "decls-setup")
+			return
+		}
+	}
+	var form Sexp
+	if vChoice("mode", 2) == 0 {
+		// builders with arbitrary arguments
+		maxArgs := 2
+		if vTier() == 1 {
+			maxArgs = 3
+		}
+		head := vC01DeclHeads[vChoice("head", len(vC01DeclHeads))]
+		nargs := vChoice("nargs", maxArgs+1)
+		args := make([]Sexp, nargs)
+		for i := range args {
+			args[i] = vC01DeclArg(env, vChoice("arg", vC01NDeclArgs))
+		}
+		form = vForm(env, head, args...)
+	} else {
+		// calls of declared things with labelled arguments, up to 4 of them
+		head := []string{"tf", "Dog", "d", "v"}[vChoice("callee", 4)]
+		nargs := vChoice("nargs", 5)
+		args := make([]Sexp, nargs)
+		for i := range args {
+			args[i] = vC01DeclArg(env, vChoice("larg", 5))
+		}
+		form = vForm(env, head, args...)
+		// the same call from inside a function body and as an argument
+		switch vChoice("site", 3) {
+		case 1:
+			form = vL(vL(vS(env, "fn"), vA(env), form))
+		case 2:
+			form = vL(vS(env, "list"), form)
+		}
+	}
+	vSetStepBudget(400000)
+	_, _, panicked := vEval(env, form)
+	vAssert(!panicked, "no-panic-escapes-declaration-eval")
+	vReach("decl-evaluated")
+	_, _, panicked = vEval(env, vForm(env, "+", &SexpInt{Val: 1}, &SexpInt{Val: 2}))
+	vAssert(!panicked, "no-panic-in-followup")
+}
